@@ -12,7 +12,7 @@ enum {
 	PR_BLOCKED = 8, PR_WAIT_TIMEOUT, PR_WAIT_CANCEL, PR_WAIT_WOKEN, PR_TRY_FAIL, PR_TRY_OK, PR_MUWAIT_SLEPT,
 	PR_COND_BY_OTHER, PR_NOTE_OBS_TRUE, PR_NOTE_FREED, PR_CTR_ZERO_WAITERS, PR_ONCE_LOSER_WAITED, PR_WAITN_HEAP,
 	PR_WAITN_WOKEN, PR_SEM_FAULT, PR_UNREF_SLOW, PR_DEBUG_CONTENDED, PR_BARGE_LONGWAIT, PR_ALLOC_FAILED, PR_GRID_NEG,
-	PR_CV_SIGNAL_VS_TIMEOUT, PR_READER_SHARED, PR_QUIESCE_JUDGED, PR_NPROBES
+	PR_CV_SIGNAL_VS_TIMEOUT, PR_READER_SHARED, PR_QUIESCE_JUDGED, PR_CV_TAKEN_BY_WAKER, PR_NPROBES
 };
 const char *nsim_probe_names[] = {
 	"dead_access", "tolerated_dead_read_run_discarded", "rt2", "rt3", "rt4", "rt5", "rt6", "rt7",
@@ -20,7 +20,7 @@ const char *nsim_probe_names[] = {
 	"mu_wait_slept", "condition_evaluated_by_other_thread", "note_observed_notified", "note_freed",
 	"counter_zero_with_waiters", "once_loser_waited", "wait_n_heap_array", "wait_n_woken_by_object", "sem_fault_injected",
 	"unref_slow_unlock", "debug_call_contended", "barge_victim_long_wait", "alloc_failed", "grid_negative_deadline",
-	"signal_raced_timeout", "readers_shared", "thread_judged_at_rest"
+	"signal_raced_timeout", "readers_shared", "thread_judged_at_rest", "cv_wait_taken_off_queue_by_waker"
 };
 const int nsim_nprobes = PR_NPROBES;
 
@@ -365,6 +365,11 @@ static int do_cv_wait (int mi, int ci, int writer, int style, int dlcode, int ni
 	if (ni >= 0) { wait_created (ni); note = W.note[ni]; }
 	{ int me = my_thread[nsim_self ()]; if (me >= 0 && me < MAXT) { CW[me].ci = ci; CW[me].rel = ++qstep; CW[me].active = 1; } }
 	h_releasing (mi, writer);
+	/* who takes this wait off the cv?  nsync_cv_wait_with_deadline_generic's first atomic store sets the waiter's public
+	   `waiting` word; from then on the first thread to store to that word is either a waker (signal, broadcast, or the
+	   mutex unlocker that finishes a transferred wake-up): the wait consumed a wake-up -- or the waiter itself, removing
+	   itself after its deadline or cancellation */
+	if (style != 3) { nsim_watch_clear (80 + nsim_self ()); nsim_watch_arm_on_store (80 + nsim_self (), "nsync_cv_wait_with_deadline_generic"); }
 	switch (style) {
 	case 0:
 		nsim_op_begin ("nsync_cv_wait");
@@ -400,6 +405,16 @@ static int do_cv_wait (int mi, int ci, int writer, int style, int dlcode, int ni
 	}
 	}
 	if (nsim_op_sleeps () > 0) nsim_probe (PR_BLOCKED);
+	if (style != 3) {
+		int fw = nsim_watch_first_writer (80 + nsim_self ());
+		nsim_watch_arm_on_store (0, NULL);
+		nsim_watch_clear (80 + nsim_self ());
+		if (fw >= 0 && fw != nsim_self ()) {
+			nsim_probe (PR_CV_TAKEN_BY_WAKER);
+			if (r != 0) VIOL ("C04", "wakeup-consumed-but-not-reported", "a cv wait on cv%d was taken off the queue by a waker (t%d) but returned %d (%s): the wake-up it consumed "
+					  "is reported as a %s", ci, fw, r, r == ETIMEDOUT ? "ETIMEDOUT" : (r == ECANCELED ? "ECANCELED" : "?"), r == ETIMEDOUT ? "timeout" : "cancellation");
+		}
+	}
 	nsim_op_end ();
 	{ int me = my_thread[nsim_self ()]; if (me >= 0 && me < MAXT) CW[me].active = 0; }
 	h_acquired (mi, writer);
